@@ -9,6 +9,8 @@ Case grammar (one line, `head|op;op;...`; every op is total on both sides so the
      fs:<s|n>:<name>:idx:op:<val>:<def|->   fr:<name>:idx:op:tc:<val|->:<def|->
      fm:<name>:idx:<haskid 0|1>:<defreg|->  (pops its child)    f&:n:k  f~:n:k  f^:k  (pop k children)
      h:r  (filter from register r used as an archive)      e:<hex of expression string>
+  the filter OBJECT on top of the stack:  ev (evaluate it now on all registers)   sfa (stack .. T G: T->SetFromArchive(archive of G), G dropped)
+                                          so:<op> / sv:<hex>  (StringQueryFilter::SetOperator / SetValue)
   heads: T = tree built with constructors/setters, H = hostile archive, X = expression (the tree it denotes is built first)
 The filter on top of the stack is evaluated on all 8 registers directly, archived, restored and evaluated again.
 """
@@ -546,6 +548,95 @@ def gen_expr_case(rng, feat, regex_ok=False):
     return "X|" + ";".join(ops + fops + ["e:" + sx(txt)])
 
 
+# ---------------------------------------------------------------- reused (stateful) filter objects
+
+def kind_of(fop):
+    a = fop.split(":")
+    if a[0] == "fn":
+        return "fn:" + a[1]
+    if a[0] == "fs":
+        return "fs:" + a[1]
+    return a[0]
+
+
+def gen_same_kind(rng, kind, depth, plan, regex_ok, tries=60):
+    """a filter (list of f-ops) whose top node has the given kind, or None"""
+    for _ in range(tries):
+        ops = gen_filter(rng, depth, plan, regex_ok) if kind in ("fm", "f&", "f~", "f^") else gen_leaf(rng, depth, plan, regex_ok)
+        if kind_of(ops[-1]) == kind:
+            return ops
+    return None
+
+
+REUSE_STRS = ["abc", "green", "ac", "c", "Abc", "a,b", "", "abcd", "GREEN", "gre", "b", "ab"]
+
+
+def gen_reuse_case(rng, regex_ok=True):
+    """one filter OBJECT is built, evaluated (so that it caches whatever it caches), then overwritten in place with
+    SetFromArchive(archive of a second filter of the same class) -- or SetOperator/SetValue -- and evaluated again"""
+    plan = {n: rng.choice(FIELD_T) for n in NAMES}
+    ACTIVE[:] = rng.sample(NAMES, rng.choice([3, 4, 5]))
+    plan[ACTIVE[0]] = "s"
+    plan[ACTIVE[1]] = rng.choice(["X", "i", "f"])
+    ops, subs = [], []
+    for r in (7, 6, 5, 4, 3, 2, 1, 0):
+        ops += gen_msg_ops(rng, r, subs, plan)
+        if rng.random() < 0.8:
+            for _ in range(rng.choice([1, 2])):
+                ops.append("a:%d:%s:s:%s" % (r, sx(ACTIVE[0]), sx(rng.choice(REUSE_STRS))))
+        if r >= 5:
+            subs.append(r)
+    if rng.random() < 0.5:
+        ops.append("n:%d:%s" % (rng.choice([0, 1, 3]), sx(rng.choice(REUSE_STRS))))
+    PRESENT.clear()
+    for o in ops:
+        a = o.split(":")
+        if a[0] == "a":
+            PRESENT.setdefault((a[2], a[3]), []).append(a[4])
+    r = rng.random()
+    if r < 0.55:
+        # string / node-name filters with the pattern operators: same operator, different pattern is the interesting case
+        kind = "n" if rng.random() < 0.2 else "s"
+        name = sx(ACTIVE[0])
+        op1 = rng.choice([24, 24, 25, 26, 27, 24, 25] + [0, 6, 8])
+        op2 = op1 if rng.random() < 0.7 else rng.choice([24, 25, 26, 27, 0, 6, 8, 28])
+
+        def pat(op):
+            if op in (24,):
+                return rng.choice(PATTERNS)
+            if op == 26:
+                return rng.choice(PATTERNS_CI)
+            if op in (25, 27):
+                return rng.choice(REGEXES)
+            return rng.choice(REUSE_STRS)
+        d1 = sx(rng.choice(REUSE_STRS)) if rng.random() < 0.3 else "-"
+        d2 = sx(rng.choice(REUSE_STRS)) if rng.random() < 0.3 else "-"
+        t_ops = ["fs:%s:%s:0:%d:%s:%s" % (kind, name, op1, sx(pat(op1)), d1)]
+        g_ops = ["fs:%s:%s:%d:%d:%s:%s" % (kind, name if rng.random() < 0.85 else sx(rng.choice(NAMES)), rng.choice([0, 0, 0, 1]), op2, sx(pat(op2)), d2)]
+    else:
+        depth = rng.choice([0, 1, 2])
+        t_ops = gen_filter(rng, depth, plan, regex_ok)
+        kind = kind_of(t_ops[-1])
+        g_ops = gen_same_kind(rng, kind, depth, plan, regex_ok) if rng.random() < 0.9 else gen_filter(rng, depth, plan, regex_ok)
+        if g_ops is None:
+            g_ops = list(t_ops)
+    seq = list(t_ops)
+    if rng.random() < 0.9:
+        seq.append("ev")
+    step = rng.random()
+    if step < 0.75:
+        seq += g_ops + ["sfa"]
+    elif step < 0.88:
+        seq.append("so:%d" % rng.choice([24, 25, 26, 27, 0, 6, 8]))
+    else:
+        seq.append("sv:%s" % sx(rng.choice(PATTERNS + REUSE_STRS)))
+    if rng.random() < 0.4:
+        seq.append("ev")
+        if rng.random() < 0.5:
+            seq += g_ops + ["sfa"] if rng.random() < 0.5 else ["sv:%s" % sx(rng.choice(PATTERNS_CI + REGEXES[:4]))]
+    return "T|" + ";".join(ops + seq)
+
+
 def deep_archive_cases():
     """a valid leaf archive wrapped in many levels of kid nesting (a safe depth: the unbounded recursion itself is finding F5)"""
     out = []
@@ -605,7 +696,8 @@ class CHECK(vlib.Check):
                 "with all 28 operators, RawData, Message, Minimum/MaximumThreshold with ThresholdMaxAux's early exits, Xor), Message::FindData's "
                 "type switch, SaveToArchive/SetFromArchive of every class and the MuscleQueryFilterFactory, and CreateQueryFilterFromExpression "
                 "(GetMatchingToken, the Lexer, CreateQueryFilterFromExpressionAux, GetValueStringType, ParseFieldNameAux, GetValueAs<T>, "
-                "DefaultSubexpressionFactory).  IEEE-754 float/double comparison is modelled on the bit patterns and proved equal to Flocq's "
+                "DefaultSubexpressionFactory), and the filter as a REUSED stateful object: StringQueryFilter's cached StringMatcher (DoMatch/FreeMatcher), "
+                "SetFromArchive called on an existing, already evaluated object of every class, StringQueryFilter::SetOperator/SetValue.  IEEE-754 float/double comparison is modelled on the bit patterns and proved equal to Flocq's "
                 "Bcompare.  Not modelled: NULL children of a MultiQueryFilter, empty (zero-length) ByteBuffers as RawData value/default, Strings "
                 "with embedded NUL, RawData filters aimed at sub-Message/pointer fields (pointer bits), custom ISubexpressionFactory/QueryFilterFactory.")
     premises = ["memory safety of the C++ (observed under ASan/UBSan in the harness only); recursion depth of nested archives (F5)",
@@ -616,7 +708,8 @@ class CHECK(vlib.Check):
                 "(And(NULL, x) decides 0, its restored copy decides x): outside the documented use, not represented in the model",
                 "non-claim: a RawDataQueryFilter aimed at a sub-Message (or pointer) field compares the bytes of the MessageRef object (pointer bits): "
                 "outside the documented use, the model answers false, generators never aim a raw filter at such a field"]
-    rule = ("a case builds 8 Messages and a filter (constructors/setters; the archive factory on a hostile or deeply nested Message; or "
+    rule = ("a case builds 8 Messages and a filter (constructors/setters; an object that is evaluated, then overwritten in place with SetFromArchive / "
+            "SetOperator / SetValue, then evaluated again; the archive factory on a hostile or deeply nested Message; or "
             "CreateQueryFilterFromExpression, with the tree the documented grammar denotes built next to it); the filter is evaluated on all "
             "8 Messages directly, archived, sent through Flatten/Unflatten, restored and evaluated again; every line (tree read from the objects' "
             "private members, decisions, archive content, restored tree and decisions) is compared with the extracted model; the harness's own "
@@ -648,6 +741,8 @@ class CHECK(vlib.Check):
             out.append(("hostile", gen_hostile_case(rng, rng.choice([1, 2, 3, 5]))))
             out.append(("hostile-mutated", gen_mutated_archive_case(rng)))
         for i in range(n // 2):
+            out.append(("reuse", gen_reuse_case(rng)))
+        for i in range(n // 2):
             out.append(("expr", gen_expr_case(rng, set(), regex_ok=True)))
         for i in range(n // 8):
             out.append(("expr-index-default", gen_expr_case(rng, set(["idx", "def"]))))
@@ -658,7 +753,7 @@ class CHECK(vlib.Check):
 
     def nontrivial(self, case):
         body = case.split("|", 1)[1]
-        nf = sum(1 for o in body.split(";") if o.startswith("f") or o.startswith("h:") or o.startswith("e:"))
+        nf = sum(1 for o in body.split(";") if o.startswith("f") or o.startswith("h:") or o.startswith("e:") or o in ("ev", "sfa"))
         fl = any(o.startswith("fn:f") or o.startswith("fn:d") or o.startswith("fn:P") or o.startswith("fn:R") for o in body.split(";"))
         return (nf >= 2 or fl or "h:" in body) and ("a:" in body)
 
